@@ -261,6 +261,13 @@ func (e *Engine) buildReplay(res *FnResult, o *Obl, model map[string]string) (*R
 		case *types.Interface:
 			ts := t.String()
 			switch {
+			case strings.HasSuffix(ts, "gopacket.SerializeBuffer"):
+				if pname == "gopacket" {
+					args = append(args, "NewSerializeBuffer()")
+				} else {
+					rc.Imports["github.com/gopacket/gopacket"] = true
+					args = append(args, "gopacket.NewSerializeBuffer()")
+				}
 			case strings.HasSuffix(ts, "gopacket.DecodeFeedback"):
 				if pname == "gopacket" {
 					args = append(args, "NilDecodeFeedback")
